@@ -114,6 +114,11 @@ func (i *interpreter) term(v value) *Term {
 // val converts a term back to a value of kind k (concrete when constant).
 func (i *interpreter) val(t *Term, k types.BasicKind) value {
 	if !t.IsConst() {
+		if t.Sort == SBool && i.known != nil {
+			if v, ok := i.evalRanges(t); ok {
+				return v
+			}
+		}
 		return &Sym{T: t, K: k}
 	}
 	return constToValue(t, k)
@@ -429,7 +434,7 @@ func (i *interpreter) strEq(x, y value) *Term {
 	xb, yb := strBytes(x), strBytes(y)
 	r := s.True
 	for k := range xb {
-		r = s.And(r, s.Eq(i.term(xb[k]), i.term(yb[k])))
+		r = s.And(r, i.simp(s.Eq(i.term(xb[k]), i.term(yb[k]))))
 		if r == s.False {
 			return r
 		}
